@@ -51,6 +51,10 @@ def c08a(tree, ob):
             continue
         if is_logging_stmt(n.ast):
             continue
+        # a pure local computation (plain local target, no call other than bytes()/len()) cannot change the bundle
+        if isinstance(n.ast, ast.Assign) and all(isinstance(t, ast.Name) for t in n.ast.targets) and \
+                all((call_name(c) or '') in ('bytes', 'len') for c in calls_in(n.ast)):
+            continue
         ob.violate(AGENT, fv.qual, n.text()[:80], 'a statement between the CRC update and the transmission may change the bundle after its CRCs were computed', n.ast)
     ob.site(AGENT, snd, 'only logging between CRC update, encode and send')
 
